@@ -19,7 +19,9 @@ RULE = (
     "default radius at a vertex displaced by 0 / 0.4 TOL / 3 TOL) and every plane (through vertex triples, displaced by "
     "0 / 0.4 TOL / 3 TOL) is compared with a brute-force search; histories [query] - move one vertex (3 TOL | 0.23) - "
     "queries at the old and the new spot on ONE finder object; round-shape finder: core/shell x start/end. "
-    "re-orientation: 6 convex hexahedra x all 48 corner numberings x 4 viewpoint/ceiling pairs. non-trivial = a distinct query / numbering"
+    "re-orientation: 6 convex hexahedra x all 48 corner numberings x 5 viewpoint/ceiling pairs x 3 placements; and a lattice "
+    "of 144 viewpoints x 2 ceilings all around each hexahedron x 6 numberings: a call that returns keeps the eight points "
+    "and right-handedness, and where front and top side lead by 0.12 it must succeed and name them. non-trivial = a distinct query / numbering"
 )
 ASSUMPTIONS = ["merge tolerance TOL = 1e-7; query radii/planes never within 10 TOL of a vertex except the explicit 0.4 TOL / 3 TOL cases"]
 TOL = 1e-7
@@ -35,6 +37,8 @@ def cases(tier, seed):
             out.append({"what": "moved", "mesh": mesh, "frame": fr})
         for shape in ("Cylinder", "Frustum", "Elbow"):
             out.append({"what": "round", "shape": shape, "frame": fr})
+    for hexa in range(6):
+        out.append({"what": "reorient_lattice", "hex": hexa})
     for hexa in range(6):
         for view in range(len(VIEWS)):
             for place in range(len(PLACES)):
@@ -318,7 +322,85 @@ def run_reorient(case):
     return violations, execs
 
 
+def run_reorient_lattice(case):
+    """a lattice of viewpoints all around the block. Whatever the viewpoint: a call that returns has kept the eight
+    points and made the block right-handed. Where the front and the top side are unambiguous (the best-aligned side
+    leads by MARGIN), the call must succeed and put them in front / on top."""
+    import classy_blocks as cb
+
+    MARGIN = 0.12
+    pts = hexahedra()[case["hex"]] + np.array(PLACES[0])
+    centre = pts.mean(axis=0)
+    violations = []
+    execs = 0
+    outcomes = {}
+    # true outward normals of the six sides of the block as given (numbering 0)
+    normals = {}
+    for side, cs in bm.FACES.items():
+        nrm = np.cross(pts[cs[2]] - pts[cs[0]], pts[cs[3]] - pts[cs[1]])
+        nrm /= np.linalg.norm(nrm)
+        if float(nrm @ (pts[list(cs)].mean(axis=0) - centre)) < 0:
+            nrm = -nrm
+        normals[side] = nrm
+    opposite = {"bottom": "top", "top": "bottom", "left": "right", "right": "left", "front": "back", "back": "front"}
+    for az in range(0, 360, 15):
+        for el in (-50, -30, -10, 10, 30, 50):
+            a, e = math.radians(az + 3.0), math.radians(el)
+            vo = np.array([math.cos(e) * math.cos(a), math.cos(e) * math.sin(a), math.sin(e)])
+            for ci, up in enumerate(((0.05, 0.1, 1.0), (0.6, -0.3, 0.8))):
+                up = np.array(up) / np.linalg.norm(up)
+                if abs(float(up @ vo)) > 0.9:
+                    continue
+                obs, ceil = centre + 9.0 * vo, centre + 11.0 * up
+                vc = up - float(up @ vo) * vo
+                vc /= np.linalg.norm(vc)
+                d_o = sorted(((float(n @ vo), s) for s, n in normals.items()), reverse=True)
+                front = d_o[0][1]
+                rest = [s for s in normals if s not in (front, opposite[front])]
+                d_c = sorted(((float(normals[s] @ vc), s) for s in rest), reverse=True)
+                clear = d_o[0][0] - d_o[1][0] >= MARGIN and d_c[0][0] - d_c[1][0] >= MARGIN
+                for k in (0, 7, 13, 22, 31, 40):
+                    perm, _ = HEXSYM48[k]
+                    P = np.array(renumber(list(pts), perm))
+                    op = cb.Loft(cb.Face(P[:4]), cb.Face(P[4:]))
+                    execs += 1
+                    coords = dict(case, azimuth=az, elevation=el, ceiling=ci, numbering=k, unambiguous=clear)
+                    try:
+                        cb.ViewpointReorienter(obs, ceil).reorient(op)
+                    except Exception as err:
+                        outcomes["raised:clear" if clear else "raised:dubious"] = outcomes.get("raised:clear" if clear else "raised:dubious", 0) + 1
+                        if clear:
+                            violations.append({"clause": "reorient-raised", "coords": coords, "detail": f"front side leads by {d_o[0][0] - d_o[1][0]:.3f}, top side by {d_c[0][0] - d_c[1][0]:.3f}: {type(err).__name__}: {err}"})
+                        continue
+                    outcomes["returned:clear" if clear else "returned:dubious"] = outcomes.get("returned:clear" if clear else "returned:dubious", 0) + 1
+                    Q = np.array(op.point_array)
+                    if sorted(map(tuple, np.round(Q, 9))) != sorted(map(tuple, np.round(pts, 9))):
+                        violations.append({"clause": "reorient-points-changed", "coords": coords, "detail": f"the call returned, but the block now has {len(set(map(tuple, np.round(Q, 9))))} distinct points, {len(set(map(tuple, np.round(Q, 9))) & set(map(tuple, np.round(pts, 9))))} of them original"})
+                        continue
+                    ok, worst = bm.is_right_handed(Q)
+                    if not ok:
+                        violations.append({"clause": "reorient-not-right-handed", "coords": coords, "detail": f"smallest triple product {worst}"})
+                        continue
+                    if clear:
+                        # which original side ended up as front / top
+                        def side_of(name):
+                            key = frozenset(map(tuple, np.round(Q[list(bm.FACES[name])], 9)))
+                            for s0, cs in bm.FACES.items():
+                                if frozenset(map(tuple, np.round(pts[list(cs)], 9))) == key:
+                                    return s0
+                            return None
+
+                        if side_of("front") != front:
+                            violations.append({"clause": "reorient-front-not-facing-observer", "coords": coords, "detail": f"side {side_of('front')} of the given block is in front, side {front} faces the observer best (by {d_o[0][0] - d_o[1][0]:.3f})"})
+                        elif side_of("top") != d_c[0][1]:
+                            violations.append({"clause": "reorient-top-not-facing-ceiling", "coords": coords, "detail": f"side {side_of('top')} is on top, side {d_c[0][1]} faces the ceiling best (by {d_c[0][0] - d_c[1][0]:.3f})"})
+    return violations, execs, outcomes
+
+
 def run_case(case):
+    if case["what"] == "reorient_lattice":
+        violations, execs, outcomes = run_reorient_lattice(case)
+        return {"violations": violations, "outcomes": outcomes, "execs": execs, "nontrivial_n": execs, "states": 1, "transitions": execs}
     fn = {"sphere": run_sphere, "plane": run_plane, "moved": run_moved, "round": run_round, "reorient": run_reorient}[case["what"]]
     violations, execs = fn(case)
     return {"violations": violations, "outcome": case["what"], "execs": execs, "nontrivial_n": execs, "states": 1, "transitions": execs}
